@@ -53,7 +53,7 @@ func messageOfHeader(v ssa.Value) ssa.Value {
 
 func init() {
 	props["C02"] = c02
-	floors["C02"] = map[string]int{"C02.R1": 14, "C02.R2": 4, "C02.R3": 9, "C02.R4": 6, "C02.R5": 4, "C02.R6": 6}
+	floors["C02"] = map[string]int{"C02.R1": 14, "C02.R2": 4, "C02.R3": 9, "C02.R4": 6, "C02.R5": 4, "C02.R6": 12}
 }
 
 func c02(r *Report) {
@@ -344,6 +344,34 @@ func c02(r *Report) {
 	})
 
 	r.Guard("C02.R6", "after a hijack the proxy stops serving the connection: hijack returns terminate the connection loop", func() {
+		// every modifier call is followed by a Hijacked() test before the proxy touches the connection again
+		for _, f := range []*ssa.Function{handle, hcr} {
+			g := G(f)
+			for _, c := range calls(f) {
+				if !(isReqMod(c) || isResMod(c)) {
+					continue
+				}
+				isHj := func(i ssa.Instruction) bool { _, ok := isCall(i, nHijcked); return ok }
+				isIO := func(i ssa.Instruction) bool {
+					cc, ok := i.(*ssa.Call)
+					if !ok {
+						return false
+					}
+					switch calleeName(cc) {
+					case "(*net/http.Response).Write", "(*bufio.Writer).Flush", "(*bufio.Reader).Read", "(*M.Proxy).handle", "(*M.Proxy).roundTrip", "(*M.Proxy).connect", "io.Copy", "(*M/h2.Config).Proxy":
+						return true
+					}
+					return isReqMod(cc) || isResMod(cc)
+				}
+				p := g.PathTo([]ssa.Instruction{c}, false, isHj, isIO)
+				r.Paths++
+				if p != nil {
+					r.Fail("path", "hijack tested after "+site(f, c), "the proxy can perform I/O or further processing after this modifier call without testing Session.Hijacked(): it writes on a connection the modifier may have taken over", witness(w, p), c.Pos())
+				} else {
+					r.Hold("path", "hijack tested after "+site(f, c), "every path from the modifier call to the next proxy I/O passes a Hijacked() test", c.Pos())
+				}
+			}
+		}
 		// (A) loop-level guard in handleLoop
 		loopGuard := false
 		hcalls := plainCalls(loop, "(*M.Proxy).handle")
